@@ -28,6 +28,10 @@ int main(int argc, char** argv) {
     if (!raised || len(e) != 0) { printf("REPRODUCED: rem of an absent key on a table emptied by resize(t, 0) did not raise KeyError\n"); return 1; }
     raised = 0; try { get(e, $I(1)); } catch (x in KeyError) { raised = 1; }
     if (!raised || mem(e, $I(1))) { printf("REPRODUCED: get / mem on a table emptied by resize(t, 0)\n"); return 1; } }
+  { var e = new(Table, Int, Int); set(e, $I(1), $I(2)); set(e, $I(2), $I(3)); set(e, $I(3), $I(1));
+    var v = get(e, $I(1)); var w = get(e, v);      /* following links: the key is a value object embedded in the same table */
+    if (c_int(w) != 3) { printf("REPRODUCED: get(t, get(t, 1)) on {1:2, 2:3, 3:1} gives %lld instead of 3 (a value object of the table taken for the key of its slot)\n", (long long)c_int(w)); return 1; }
+    foreach (k in e) { if (c_int(get(e, k)) != (c_int(k) % 3) + 1) { printf("REPRODUCED: get with a key object handed out by iteration\n"); return 1; } } }
   int nops = 2 * NK + 1, depth = 5;
   long total = 1; for (int d = 0; d < depth; d++) total *= nops;
   for (long code = 0; code < total; code++) {
